@@ -2,6 +2,7 @@ package c11
 
 import (
 	"bytes"
+	"encoding/binary"
 	"encoding/json"
 	"fmt"
 	"reflect"
@@ -9,6 +10,7 @@ import (
 	"testing"
 	"time"
 
+	rhp2 "go.sia.tech/core/rhp/v2"
 	rhp4 "go.sia.tech/core/rhp/v4"
 	"pgregory.net/rapid"
 
@@ -42,6 +44,8 @@ var fullBatches = map[string][]batchField{
 	"rhp4.RPCAppendSectorsResponse": {{"Accepted", rhp4.MaxSectorBatchSize}, {"SubtreeRoots", 64}},
 	// a response to a full roots request: the roots and a range proof of at most 2*64 hashes
 	"rhp4.RPCSectorRootsResponse": {{"Roots", rhp4.MaxSectorBatchSize}, {"Proof", 128}},
+	// rhp v2: a read section never spans more than one sector, and a whole sector is the common case
+	"rhp2.RPCReadResponse": {{"Data", rhp2.SectorSize}, {"MerkleProof", 32}},
 }
 
 // FullCase is a base value of one entry (short lists, generated) whose batch fields are then stretched
@@ -153,8 +157,18 @@ func checkFull(c FullCase) error {
 			return stats.Failf("", "harness: %s has no list %s", c.Entry, f.Field)
 		}
 		s := reflect.MakeSlice(fv.Type(), n, n)
-		for i := 0; i < n; i++ {
-			fill(s.Index(i), &seed)
+		if fv.Type().Elem().Kind() == reflect.Uint8 {
+			raw := s.Bytes()
+			for i := 0; i+8 <= len(raw); i += 8 {
+				binary.LittleEndian.PutUint64(raw[i:], splitmix(&seed))
+			}
+			for i := len(raw) &^ 7; i < len(raw); i++ {
+				raw[i] = byte(splitmix(&seed))
+			}
+		} else {
+			for i := 0; i < n; i++ {
+				fill(s.Index(i), &seed)
+			}
 		}
 		fv.Set(s)
 		total += n
